@@ -81,6 +81,7 @@ static int wstk[256]; static int wd;
 static char DIR[512];
 static char PATHS[5][600];
 static char** TOK; static int NT, IT;
+static const char* SW;      /* word delivered by the last successful scan */
 
 static void objs_dump(void) {
   for (int i = 0; i < 4; i++) {
@@ -229,13 +230,14 @@ static void do_op(char* tok) {
         if (na != 1 || F[i] == NULL) break;
         var k = new_raw(Int, $I(0));
         var w = new_raw(String, $S(""));
-        resize(w, 200);
+        resize(w, 70000);            /* no case writes more than 60000 bytes */
         strcpy(res, "ok");
         scan_from(F[i], 0, "%ld %s\n", k, w);
-        snprintf(res, sizeof res, "S%ld:%s", (long)c_int(k), c_str(w)); break; }
+        SW = c_str(w);
+        snprintf(res, sizeof res, "S%ld:", (long)c_int(k)); break; }
       default: break;
     }
-  } catch (e) { strcpy(res, exn_name(e)); have_read = 0; }
+  } catch (e) { strcpy(res, exn_name(e)); have_read = 0; SW = NULL; }
   if (have_read) {
     if (!first_step) P(" | ");
     first_step = 0;
@@ -244,6 +246,13 @@ static void do_op(char* tok) {
     digest(rbuf, rn);
     if (over) P("OVERRUN");
     P(";"); objs_dump(); P(";%s", EV); fflush(OUT); step_begin();
+  } else if (SW) {
+    if (!first_step) P(" | ");
+    first_step = 0;
+    P("%s", res);
+    for (const unsigned char* c = (const unsigned char*)SW; *c; c++) P("%02x", *c);
+    P(";"); objs_dump(); P(";%s", EV); fflush(OUT); step_begin();
+    SW = NULL;
   } else step_end(res);
   free(rbuf);
 }
